@@ -4,6 +4,7 @@ import (
 	"bytes"
 	"encoding/base64"
 	"encoding/binary"
+	"errors"
 	"fmt"
 	"io"
 	"math"
@@ -249,6 +250,9 @@ func NewMultiReaderAt(readers []io.ReaderAt, sizes []int64) *MultiReaderAt {
 }
 
 func (m *MultiReaderAt) ReadAt(p []byte, off int64) (totalN int, err error) {
+	if off < 0 {
+		return 0, errors.New("splitcarfetcher.MultiReaderAt.ReadAt: negative offset")
+	}
 	remaining := len(p)
 	bufOffset := 0
 	reachedEnd := false
